@@ -7,7 +7,7 @@ from ..buscheck import fld, hexname, Tracker
 MODULE = "Dbus.Props.C06"
 THEOREMS = ["lastVerdict_eq_decide", "lastVerdict_append", "send_rule_matches_as_documented", "receive_rule_matches_as_documented",
             "own_rule_matches_as_documented", "send_decision_as_documented", "receive_decision_as_documented",
-            "own_decision_as_documented", "reloaded_policy_governs", "own_denied_after_reload", "f16_witness", "contexts_in_order", "later_context_wins", "unmatched_context_transparent",
+            "own_decision_as_documented", "optimize_changes_no_send_decision", "optimize_changes_no_receive_decision", "optimize_changes_no_own_decision", "client_policy_decides_as_full_list", "reloaded_policy_governs", "own_denied_after_reload", "f16_witness", "contexts_in_order", "later_context_wins", "unmatched_context_transparent",
             "nothing_allowed_by_default", "gate_denies_with_access_denied", "gate_checks_sender_and_recipient",
             "denied_request_changes_nothing", "denied_message_reaches_no_one"]
 BUS = "org.freedesktop.DBus"
